@@ -71,12 +71,17 @@ func (vs *VoteSummary) SetPrevotePowers(vals []Validator, prevotes map[string]gc
 	var maxHash string
 	var maxPow uint64
 	var bs bitset.BitSet
+	// A validator who voted for more than one target is present only once.
+	var counted bitset.BitSet
 	for blockHash, proof := range prevotes {
 		proof.SignatureBitSet(&bs)
 		var blockPow uint64
 		for i, ok := bs.NextSet(0); ok && int(i) < len(vals); i, ok = bs.NextSet(i + 1) {
 			valPow := vals[int(i)].Power
-			vs.TotalPrevotePower += valPow
+			if !counted.Test(i) {
+				counted.Set(i)
+				vs.TotalPrevotePower += valPow
+			}
 			blockPow += valPow
 		}
 
@@ -100,12 +105,17 @@ func (vs *VoteSummary) SetPrecommitPowers(vals []Validator, precommits map[strin
 	var maxHash string
 	var maxPow uint64
 	var bs bitset.BitSet
+	// A validator who voted for more than one target is present only once.
+	var counted bitset.BitSet
 	for blockHash, proof := range precommits {
 		proof.SignatureBitSet(&bs)
 		var blockPow uint64
 		for i, ok := bs.NextSet(0); ok && int(i) < len(vals); i, ok = bs.NextSet(i + 1) {
 			valPow := vals[int(i)].Power
-			vs.TotalPrecommitPower += valPow
+			if !counted.Test(i) {
+				counted.Set(i)
+				vs.TotalPrecommitPower += valPow
+			}
 			blockPow += valPow
 		}
 
